@@ -32,10 +32,11 @@ def run_cases(cases, res, stratum):
         try:
             x = A.mk(fx, np, *fxm, cx, rounding=rnd, op_method=method)
             y = A.mk(fx, np, *fym, cy, rounding=rnd, op_method=method)
-            fl = x // y; md = x % y
-            q = x / y if wq_of(fxm, fym) <= 53 else None      # (x/y only when ITS result word is within the domain)
-            rec = fl * y + md if (x.n_word + y.n_word <= 40) else None
-            obs = {'q': (A.fmt_of(q), lib.codes_of(q)[0], lib.status3(q)) if q is not None else None, 'fl': (A.fmt_of(fl), lib.codes_of(fl)[0], lib.status3(fl)),
+            md = x % y
+            fl = x // y if 1 <= wfl_of(fxm, fym) <= 53 else None
+            q = x / y if (wq_of(fxm, fym) <= 53 and fl is not None) else None      # (x/y only when ITS result word is within the domain)
+            rec = fl * y + md if (fl is not None and x.n_word + y.n_word <= 40) else None
+            obs = {'q': (A.fmt_of(q), lib.codes_of(q)[0], lib.status3(q)) if q is not None else None, 'fl': (A.fmt_of(fl), lib.codes_of(fl)[0], lib.status3(fl)) if fl is not None else None,
                    'md': (A.fmt_of(md), lib.codes_of(md)[0], lib.status3(md)), 'rec': (Fraction(lib.codes_of(rec)[0]) / Fraction(2) ** rec.n_frac) if rec is not None else None}
         except Exception as e:
             res.fail(case, 'C09: division family raised %s' % lib.exc_name(e), got=str(e)[:200]); continue
@@ -53,7 +54,8 @@ def run_cases(cases, res, stratum):
         qv = xv / yv
         res.count(stratum, key=repr(case), nontrivial=not exact)
         res.sample(case)
-        (ffl, cfl, sfl), (fm, cm, sm) = obs['fl'], obs['md']
+        (fm, cm, sm) = obs['md']
+        (ffl, cfl, sfl) = obs['fl'] if obs['fl'] is not None else (gf, zfl, (False, False, False))
         (fq, cq, sq) = obs['q'] if obs['q'] is not None else (gq, zf, (False, False, False))
         if obs['rec'] is None: obs['rec'] = xv
         if fq != gq or ffl != gf or fm != gm:
@@ -78,7 +80,7 @@ def run_cases(cases, res, stratum):
         if obs['rec'] != xv:
             res.fail(case, 'C09: (x//y)*y + x%y does not reproduce x', expected=str(xv), got=str(obs['rec'])); continue
         for d, key in ((0, 'q'), (1, 'fl'), (2, 'md')):
-            if key == 'q' and obs['q'] is None: continue
+            if obs[key] is None: continue
             mo = S.read_model_store(allouts[4 * pi + 1 + d])
             if mo['kind'] != 'ok' or mo['codes'] != [obs[key][1]] or mo['status'][:2] != obs[key][2][:2]:
                 res.fail(case, 'model Div.div_%s disagrees with the implementation although the property holds (%s)' % (case['method'], key), expected=str(mo)[:160], got=obs[key][1])
@@ -123,7 +125,13 @@ def shard(shard, nshards, rng, tier, extra):
         def g():
             nw = rng.choice([8, 20, 30, 41, 48, 55, 60, rng.randint(1, 62)]); return (rng.random() < 0.5, nw, rng.randint(0, nw))
         fxm, fym = g(), g()
-        if not (1 <= wfl_of(fxm, fym) <= 53 and 1 <= wmod_of(fxm, fym) <= 53): continue
+        if rng.random() < 0.35:
+            # two unsigned operands, one with a wide integer part, the other with many fraction bits: the modulo's own format is
+            # narrow (min of the integer lengths) although the aligned operands need more than 64 bits
+            nwx = rng.randint(35, 62); fxm = (False, nwx, rng.randint(0, 6)); nwy = rng.randint(2, 30); fym = (False, nwy, rng.randint(max(0, nwy - 6), nwy))
+            if rng.random() < 0.5: fxm, fym = fym, fxm
+        if not (1 <= wmod_of(fxm, fym) <= 53): continue
+        # (x//y and x/y are checked only when their own result words are within the domain)
         cx = A.interesting_codes(rng, fxm[0], fxm[1], 1)[0]; cy = A.interesting_codes(rng, fym[0], fym[1], 1)[0]
         if cy == 0: continue
         # the value ('repr') method computes on the operands' float values: only for operands that are exact doubles
